@@ -51,7 +51,7 @@ _mk('UserObject', 'object')          # opaque user object (context, tracer, ...)
 _mk('UserCallable', 'object')        # abstract callable (user method, middleware, handler, transport)
 # kinds of abstract user callables / objects; their assumed behaviour is stated in contracts/oracles.py
 for _n in ('UserMethod', 'UserMiddleware', 'UserErrorHandler', 'UserTransport', 'UserJitter', 'UserCallback',
-           'UserExcludeFn', 'UserIdGen', 'UserLoader', 'UserDumper'):
+           'UserExcludeFn', 'UserIdGen', 'UserLoader', 'UserDumper', 'UserValidator'):
     _mk(_n, 'UserCallable')
 for _n in ('UserTracer', 'UserContext', 'UserView'):
     _mk(_n, 'UserObject')
